@@ -95,9 +95,11 @@ type rtCase struct {
 	Table int    `json:"table"`
 	Seed  int64  `json:"seed"`
 	IDSel int    `json:"idsel"`
+	Rank  int    `json:"rank"` // table class: the rank every kind takes (0 = a random non-zero one per kind)
 }
 
-var rtIDs = []string{"1", "a b", "\x00<&>\"\\é漢\U0001F600", "x/y?z#w%20", strings.Repeat("long", 50)}
+var rtIDs = []string{"1", "a b", "\x00<&>\"\\é漢\U0001F600", "x/y?z#w%20", strings.Repeat("long", 50),
+	"a\\u0026b\\u003e"} // the last one: a literal backslash before u0026, the text of a JSON escape
 
 // values of one round-trip case: field -> base value (nil = nil pointer)
 func rtValues(c rtCase) (map[string]any, string, []string) {
@@ -112,6 +114,9 @@ func rtValues(c rtCase) (map[string]any, string, []string) {
 		case "table":
 			vs := tableFor(c.Table, c.Seed).vals[k]
 			v = vs[(1+rng.Intn(len(vs)-1))%len(vs)]
+			if c.Rank > 0 {
+				v = vs[c.Rank%len(vs)]
+			}
 		default:
 			v = randomBase(rng, k)
 		}
@@ -914,7 +919,7 @@ func codecOtherModes(mode string, rng *rand.Rand, stt *stats, w *evWriter, n int
 		for _, impl := range []string{"soft", "wrap"} {
 			for _, via := range []string{"resource", "document"} {
 				classes := []string{"zero", "nil"}
-				for t := 0; t < 3; t++ {
+				for t := 0; t < 3*3+3; t++ { // every rank of every table for all kinds at once, then mixed ranks
 					classes = append(classes, "table")
 				}
 				for i := 0; i < n; i++ {
@@ -923,6 +928,12 @@ func codecOtherModes(mode string, rng *rand.Rand, stt *stats, w *evWriter, n int
 				for i, cls := range classes {
 					c := rtCase{Fam: "codec", Mode: "roundtrip", Impl: impl, Via: via, Class: cls, Table: i % 3,
 						Seed: seed*100003 + int64(i), IDSel: rng.Intn(len(rtIDs))}
+					if cls == "table" && i-2 < 9 {
+						c.Table, c.Rank = (i-2)/3, 1+(i-2)%3
+					}
+					if i < len(rtIDs) {
+						c.IDSel = i // every id of the vocabulary at least once
+					}
 					ev := runRoundTrip(c)
 					stt.Calls += 2
 					stt.class("rt:" + impl + ":" + via)
